@@ -1076,6 +1076,7 @@ def correspondence(chk: common.Check, rng, n_per_class: int, entries, helpers, c
     if replies[0] != "ok" or replies[1] != "true":
         bad.append({"op": "wftable", "why": f"driver says variant={replies[0]} wfTable={replies[1]}"})
     n_fallback = 0
+    by_key = {e.key: e for e in entries}
     for kw, line in zip(plan, replies[2:]):
         op, r, real = kw["op"], kw["expr"], kw["real"]
         nontrivial = any(m1.is_unevaluated_class(type(a)) for a in r.args) or bool(kw.get("sigma")) and len(kw["sigma"]) > 1
@@ -1117,6 +1118,16 @@ def correspondence(chk: common.Check, rng, n_per_class: int, entries, helpers, c
             continue
         try:
             model = m1.read_reply(line)
+            if op == "construct" and kw["key"] in by_key and type(real) is by_key[kw["key"]].cls:
+                # the converter reads an instance BY FIELD NAME; the model's argument list is positional. Tie the two:
+                # `.args` of the constructed instance must be the values of the SymPy fields in declaration order
+                # (methods such as evaluate() unpack `.args` by position), however the call was written
+                named = [getattr(real, f.name) for f in by_key[kw["key"]].sympy_fields]
+                if len(real.args) != len(named) or any(not (a is b or a == b) for a, b in zip(real.args, named)):
+                    bad.append({**rec, "why": ".args of the constructed instance is not the model's argument list (SymPy fields in declaration order)",
+                                "real_args": [str(a)[:120] for a in real.args], "model": line[:300],
+                                "fields_by_name": {f.name: str(v)[:120] for f, v in zip(by_key[kw["key"]].sympy_fields, named)}})
+                    continue
             if m1.same(real, model, ctx):
                 continue
             rebuilt = m1.to_sympy_raw(model, ctx.fresh())  # pool sums NOT passed through PoolSum.__new__
